@@ -185,7 +185,9 @@ class MessagePackDocument(HierDictDocument):
         if isinstance(value, (six.text_type, six.binary_type)):
             return super(MessagePackDocument, self) \
                                                 .integer_from_bytes(cls, value)
-        return value
+
+        # same rules as the other dict-based protocols
+        return self._ret_number(cls, value)
 
     def integer_to_bytes(self, cls, value, **_):
         # if it's inside the range msgpack can deal with
@@ -251,11 +253,16 @@ class MessagePackRpc(MessagePackDocument):
                 msgname_or_error = msgname_or_error.decode(
                                                    self.default_string_encoding)
 
+        if msgtype is True or msgtype is False:
+            raise MessagePackDecodeError("Unknown message type %r" % msgtype)
+
         if msgtype == MessagePackRpc.MSGPACK_REQUEST:
-            assert message == MessagePackRpc.REQUEST
+            if message != MessagePackRpc.REQUEST:
+                raise MessagePackDecodeError("Unexpected request message")
 
         elif msgtype == MessagePackRpc.MSGPACK_RESPONSE:
-            assert message == MessagePackRpc.RESPONSE
+            if message != MessagePackRpc.RESPONSE:
+                raise MessagePackDecodeError("Unexpected response message")
 
         elif msgtype == MessagePackRpc.MSGPACK_NOTIFY:
             raise NotImplementedError()
